@@ -226,6 +226,23 @@ def new_value(node, fname, cur, rng, counter):
 
     if fname == "comm_tag":
         return ("MUT", 1) if cur != ("MUT", 1) else ("MUT", 2)
+    if fname == "name" and hasattr(node, "_container"):
+        # a named result: another name of the same container (a name the
+        # container does not have would be an ill-formed object)
+        others = sorted(k for k in node._container.keys() if k != cur)
+        if not others:
+            raise Ineffective("container with one name")
+        return others[rng.randrange(len(others))]
+    if fname == "entrypoint" and hasattr(node, "translation_unit"):
+        # call_loopy narrows the unit's entrypoints to the one called; the
+        # other kernels are still in the callables table
+        others = sorted(e for e in node.translation_unit.callables_table
+                        if e != cur)
+        if not others:
+            raise Ineffective("translation unit with one kernel")
+        return others[rng.randrange(len(others))]
+    if isinstance(cur, ReductionDescriptor):
+        return ReductionDescriptor(cur.tags | {mut_tag})
     if isinstance(cur, pt.Array):
         return _fresh_placeholder(cur, counter)
     if isinstance(cur, (AbstractResultWithNamedArrays, FunctionDefinition,
